@@ -209,12 +209,19 @@ int harness_main(int argc, char **argv, Gen generate, Exec execute) {
         { std::ofstream cur(o.out + "/current_case.txt"); cur << c << "\n"; }
         Result r;
         Toks t = split(lines[c]);
+#ifdef VH_POISON_TRACK          // C10: poisoned re-run of this harness (-include poison.hpp): record the allocation sites of the case
+        vh_poison::track = true;
+#endif
         try {
             if (t.empty()) throw bad_input("empty");
             r = execute(t);
         } catch (const bad_input &e) {
             r = Result("bad-input");
         }
+#ifdef VH_POISON_TRACK
+        vh_poison::track = false;
+        for (auto &key : vh_poison::sites_since_mark()) r.tags.push_back("site:" + key);
+#endif
         impl << r.out << "\n" << std::flush;
         if (r.ok) orc << "ok\n"; else orc << "FAIL " << r.why << "\n";
         orc << std::flush;
